@@ -19,6 +19,8 @@ props.prop(
     not_decided='the fixpoint of discover_links (reachability, shortest-chain choice), composed values, references held '
                 'by other objects',
     assumptions=['links are only added through DataCollection / LinkManager methods'])
+props.also('C03',
+           'that every attribute of a removed dataset is covered by the dataset-removed handler')
 
 LM = 'glue.core.link_manager.LinkManager'
 DC = 'glue.core.data_collection.DataCollection'
